@@ -73,7 +73,8 @@ META.update({
         note=_GW_NOTE + " The ID range is scaled through a verif-tagged hook that replaces only the upper bound of the session's own ID sequence.", technique="model-based stateful PBT with a history invariant; scaled-down ID space"),
 })
 CHECKS["C13"] = dict(parts=[part("clean-termination", "gw", "TestC13", 3000, 150_000),
-                            part("dial-failure", "gw", "TestC13Dial", 16, 200, qshards=1, tshards=2)])
+                            part("dial-failure", "gw", "TestC13Dial", 16, 200, qshards=1, tshards=2),
+                            part("process-shutdown", "cli", "TestC13Shutdown", 24, 400, qshards=8, tshards=8, needs_tools=True)])
 CHECKS["C14"] = dict(parts=[part("will-cancelled-only-by-disconnect", "gw", "TestC14", 3000, 150_000)])
 CHECKS["C23"] = dict(parts=[part("gateway-datagrams-wellformed", "gw", "TestC23GW", 3000, 150_000),
                             part("client-datagrams-wellformed", "cl", "TestC23Client", 1000, 100_000)])
